@@ -125,7 +125,10 @@ def inconsistency(ir, depth=0):
                 typ[s.name] = s.type
                 mem[s.name] = s.mem or DRAM
             elif isinstance(s, LoopIR.WindowStmt):
-                typ[s.name] = s.rhs.type
+                # the alias has the precision of the buffer it windows AS DECLARED NOW (the type
+                # recorded on the window expression can be stale after set_precision on the
+                # underlying buffer; following the declaration is what the annotations mean)
+                typ[s.name] = _AliasType(typ.get(s.rhs.name, s.rhs.type))
                 mem[s.name] = mem.get(s.rhs.name, DRAM)
             elif isinstance(s, LoopIR.Call):
                 for a, fa in zip(s.args, s.f.args):
@@ -153,6 +156,19 @@ def inconsistency(ir, depth=0):
     except _Bad as b:
         return (b.kind, b.detail)
     return None
+
+
+class _AliasType:
+    """type of a window alias: base precision of the aliased declaration, always a window"""
+
+    def __init__(self, base):
+        self._base = base
+
+    def basetype(self):
+        return self._base.basetype()
+
+    def is_win(self):
+        return True
 
 
 class _Bad(Exception):
@@ -292,7 +308,34 @@ def case_strategy():
     return st.fixed_dictionaries({"prog": progs, "ann": st.lists(ann, min_size=0, max_size=5)})
 
 
+def systematic_cases(params):
+    """every template x every single annotation (each buffer / allocation of the caller and of each
+    callee x every precision / memory / window-ness); only indices that denote distinct targets"""
+    from ..gen.templates import TEMPLATES
+
+    for t in TEMPLATES:
+        for tk in params:
+            prog = t(tk)
+            try:
+                env, p0 = build(prog)
+            except Exception:
+                continue
+            procs = [p0] + [env[c["name"]] for c in sorted(prog["callees"], key=lambda c: c["name"])][:2]
+            for tgt, q in enumerate(procs):
+                ir = q.INTERNAL_proc()
+                nbuf = len([a for a in ir.args if a.type.is_numeric()]) + len([x for x in sched.collect(ir)[0] if x.kind == "Alloc"])
+                ntens = len([a for a in ir.args if isinstance(a.type, T.Tensor)])
+                for kind, n1, n2 in (("prec", nbuf, len(PRECS)), ("mem", nbuf, 7), ("win", ntens, 2)):
+                    for k1 in range(n1):
+                        for k2 in range(n2):
+                            yield {"prog": prog, "ann": [[kind, tgt, k1, k2]]}
+
+
 def run(ctx):
     global CTX
     CTX = ctx
+    from ..common import run_systematic
+
+    quick = ctx.tier == "quick"
+    run_systematic(ctx, systematic_cases((0, 1, 2, 3)), guarded(ctx, check_case), keep_one_in=3 if quick else 1, label="template-single-annotations")
     run_cases(ctx, case_strategy(), guarded(ctx, check_case), ctx.budget(1000, 8000))
